@@ -96,12 +96,13 @@ theorem C06_rename_sound_partial (P : Prog) (k : Nat) (hP : progOk k P = true) (
 arguments substituted *simultaneously* for `g`'s parameters. -/
 theorem C06_nested_call (P : Prog) (f : Nat) (G : List (String × GVal)) (ctx : Syms) (g : String)
     (args : List PyExpr) (d : FnDef) (sargs : List SExpr) (e : SExpr) (c' : Syms)
+    (func : String) (hres : resolveCall G func = .user g)
     (hfind : P.find g = some d) (hargs : trArgs Generated.tables P (f+1) G ctx args = .ok sargs)
     (hne : sargs ≠ []) (hlen : sargs.length = d.params.length)
     (hbody : trBody Generated.tables P f d.globals d.body (d.params.map (fun p => (p, SExpr.sym p))) = .ok (e, c')) :
-    trExpr Generated.tables P (f+2) G ctx (.call (.user g) args) = .ok (substSim (d.params.zip sargs) e) := by
+    trExpr Generated.tables P (f+2) G ctx (.call func args) = .ok (substSim (d.params.zip sargs) e) := by
   rw [trExpr, hargs]
-  simp only [bind, Except.bind, hfind]
+  simp only [bind, Except.bind, hres, hfind]
   rw [fnToSympy]
   unfold trBody at hbody
   rw [hbody]
@@ -219,9 +220,9 @@ def guardFn : FnDef where
 def callerFn : FnDef where
   name := "h"
   params := ["a", "b"]
-  globals := []
+  globals := [("g", .fn (.user "g"))]
   body := [.tupleAssign ["t", "u"] [.name "b", .name "a"],
-           .ret (.bin .sub (.call (.user "g") [.name "t"]) (.name "u"))]
+           .ret (.bin .sub (.call "g" [.name "t"]) (.name "u"))]
 
 example : progOk 20 [guardFn, callerFn] = true := by decide +kernel
 
